@@ -207,8 +207,50 @@ def _make_dispatch(kind):
     return h
 
 
+def _make_two_writers():
+    """Readings belong to one writer: a report delivered to one connection must not show up in,
+    or overwrite, the readings of another writer object."""
+    def h(v0: Finite, v1: Finite, v2: Finite, v3: Finite, u0: Finite, u1: Finite, u2: Finite, u3: Finite):
+        a = pw_mod.PrintrunWriter("serial", "host", "portA", 250000)
+        b = pw_mod.PrintrunWriter("socket", "host", "8000", 0)
+        text = TEMPLATES["marlin-pos-short"][0]
+        ma, mb = text.format(*SAMPLES), text.format(*SAMPLES2)
+        old_pat, had_float = pw_mod.VALUE_PATTERN, hasattr(pw_mod, "float")
+        va, vb = [v0, v1, v2, v3], [u0, u1, u2, u3]
+        if MODE.symbolic:
+            table = dict(zip(SAMPLES, va))
+            table.update(zip(SAMPLES2, vb))
+            pw_mod.VALUE_PATTERN = PatternShim(old_pat, table)
+            pw_mod.float = _float_shim
+        else:
+            va = [float(s) for s in SAMPLES[:4]]
+            vb = [float(s) for s in SAMPLES2[:4]]
+        try:
+            a._on_device_message(ma)
+            if b.get_parameter("X") is not None:
+                got = b.get_parameter("X")
+                return V("reading-leaks-into-another-writer",
+                         lambda: f"a fresh second writer reports X={got!r} after the first got {ma!r}")
+            b._on_device_message(mb)
+        finally:
+            pw_mod.VALUE_PATTERN = old_pat
+            if MODE.symbolic and not had_float:
+                del pw_mod.float
+        for i, letter in enumerate("XYZE"):
+            ga, gb = a.get_parameter(letter), b.get_parameter(letter)
+            if ga is None or not num_eq(ga, va[i]) or gb is None or not num_eq(gb, vb[i]):
+                return V("reading-overwritten-by-another-writers-report",
+                         lambda: f"{letter}: writer A has {ga!r} (its report said {va[i]!r}), "
+                                 f"writer B has {gb!r} (its report said {vb[i]!r})")
+        reached("parsed")
+        return None
+    return h
+
+
 def cells(tier):
     out = []
+    out.append(Cell("two-writers", _make_two_writers(), budget_s=120, must_reach=("parsed",),
+                    entry="PrintrunWriter (per-instance readings)"))
     extra = _permuted_templates()
     TEMPLATES.update(extra)
     for name in TEMPLATES:
